@@ -123,6 +123,16 @@ func runDKGFaults(t *testing.T, rc *RunCtx) {
 		plan(*second)
 		desc += " + " + second.String()
 	}
+	if rc.Param("mode", "") != "matrix" && n >= 3 && ch.Pick(4, 0) == 3 {
+		// Partition: one participant is unreachable for a whole phase (every message of that kind to it is lost).
+		victim := 1 + ch.Pick(n-1, 0)
+		kind := []string{"prepare", "execute", "contribute"}[ch.Pick(3, 0)]
+		for _, from := range parts {
+			c.Net.Plan[msgID(from, parts[victim], kind, path, 0)] = "lost"
+		}
+		desc += fmt.Sprintf(" + partition(%s unreachable for %s)", parts[victim].Name, kind)
+		rc.Stats.Inc("fault_partition", 1)
+	}
 	rc.Stats.Seen("cases", desc)
 	rc.Sample = map[string]any{"case": desc, "ids": fmt.Sprint(ids), "matrix_size": len(m)}
 	out := c.spawnGenerate(initiator, "client1", path, uint32(th), uint32(n))
